@@ -400,6 +400,23 @@ pub fn run(tier: Tier) -> i32 {
                 extra.push(("header + garbage".into(), x.clone(), Opts::default()));
                 extra.push(("header + garbage, allow_incomplete, memlimit 3".into(), x, Opts { allow_incomplete: true, memlimit: Some(3), ..Opts::default() }));
             }
+            // payloads of 0..2 bytes whose size is provided (5-byte header) or announced, followed by a few other bytes:
+            // the payload ends inside whatever the decoder buffered together with the header
+            for n in 0..3usize {
+                let prog: Vec<Sym> = (0..n).map(|i| Sym::L(0x61 + i as u8)).collect();
+                let e = enc::encode(3, 0, 2, u64::MAX, &prog);
+                for tr in [vec![], vec![0u8], vec![0xFF; 2], vec![0u8; 5], vec![0x5D, 0, 0, 0x10, 0, 1, 2, 3], vec![7u8; 14]] {
+                    let mut x5 = enc::lzma_header(3, 0, 2, 4096, None);
+                    x5.truncate(5);
+                    x5.extend_from_slice(&e.payload);
+                    x5.extend_from_slice(&tr);
+                    extra.push((format!("{}-byte payload, size provided (5-byte header), {} further byte(s)", n, tr.len()), x5, Opts { size: SizeOpt::Provided(Some(n as u64)), ..Opts::default() }));
+                    let mut x13 = enc::lzma_file(3, 0, 2, 4096, Some(n as u64), &e.payload);
+                    x13.extend_from_slice(&tr);
+                    extra.push((format!("{}-byte payload, size in header, {} further byte(s)", n, tr.len()), x13.clone(), Opts::default()));
+                    extra.push((format!("{}-byte payload, size in header and provided, {} further byte(s)", n, tr.len()), x13, Opts { size: SizeOpt::HeaderProvided(Some(n as u64)), ..Opts::default() }));
+                }
+            }
             let total = sel.len() + extra.len();
             let agg = std::sync::Mutex::new((0u64, 0u64));
             par_for(total as u64, |i| {
